@@ -18,10 +18,12 @@ CLAIMS = {
 GOALS = {
     'quick': ['unsorted listing', 'two events in one tick', 'equal times',
               'event never fires',
-              'one dictionary object listed for two events'],
+              'one dictionary object listed for two events',
+              'two forced calls, the first not a multiple of the tick'],
     'thorough': ['unsorted listing', 'two events in one tick', 'equal times',
                  'event never fires',
-                 'one dictionary object listed for two events'],
+                 'one dictionary object listed for two events',
+              'two forced calls, the first not a multiple of the tick'],
 }
 STUBS = ['Holder process declaring the driven variables (_emit)',
          'recording user Emitter (vsym_rec)']
@@ -68,6 +70,13 @@ def jobs(tier):
                                 tau, 'shared' if shared else 'distinct'),
                             n=n, tau=tau, shared=shared, entry=entry, T=T,
                             calls=1, nested=True,
+                            budget_s=100 if tier == 'quick' else 900))
+                    if entry == 'direct' and n == 2 and not shared \
+                            and tau > 1:
+                        out.append(dict(
+                            name='n2-tau%d-two-forced-calls' % tau,
+                            n=n, tau=tau, shared=shared, entry=entry, T=T,
+                            calls=2, forced2=True,
                             budget_s=100 if tier == 'quick' else 900))
                     if entry == 'direct' and n == 3 and not shared:
                         out.append(dict(
@@ -140,18 +149,42 @@ def body(ctx, cfg):
                initial_state={'store': {'sub': dict(init)} if nested
                               else dict(init)},
                emitter={'type': 'vsym_rec'}, display_info=False)
+    forced2 = bool(cfg.get('forced2'))
     R = 0
+    rs = []
     for j in range(cfg['calls']):
         r = ctx.int('R', 1, T + 2 * tau)
+        rs.append(r)
         R = R + r
-        e.run_for(r, force_complete=(j == cfg['calls'] - 1))
+        e.run_for(r, force_complete=(forced2 or j == cfg['calls'] - 1))
+
+    def ceil_to(t):
+        return ((t + (tau - 1)) // tau) * tau if tau > 1 else t
 
     # ---- oracle (written from the statement; integer ticks 0, tau, 2tau, ..)
-    tick = [((t + (tau - 1)) // tau) * tau if tau > 1 else t for t in times]
-    invoked = [tk < R for tk in tick]       # the tick happened during the run
+    if forced2:
+        # two forced calls: the timeline ticks at 0, tau, .. < r1 (the last
+        # tick of the first call is cut at r1), then at r1, r1+tau, .. < R.
+        # An event fires at the first tick whose time has reached it.
+        ctx.goal('two forced calls, the first not a multiple of the tick')
+        r1 = rs[0]
+        t1 = [ceil_to(t) for t in times]
+        in1 = [tk < r1 for tk in t1]
+        t2 = [r1 + ceil_to(ite(t > r1, t - r1, 0)) for t in times]
+        tick = [ite(a, b, c) for a, b, c in zip(in1, t1, t2)]
+        end = [ite(a, ite(b + tau <= r1, b + tau, r1),
+                   ite(c + tau <= R, c + tau, R))
+               for a, b, c in zip(in1, t1, t2)]
+        invoked = [tk < R for tk in tick]
 
-    def fired(j, row_t):
-        return AND(invoked[j], OR(tick[j] + tau <= row_t, R <= row_t))
+        def fired(j, row_t):
+            return AND(invoked[j], end[j] <= row_t)
+    else:
+        tick = [ceil_to(t) for t in times]
+        invoked = [tk < R for tk in tick]   # the tick happened during the run
+
+        def fired(j, row_t):
+            return AND(invoked[j], OR(tick[j] + tau <= row_t, R <= row_t))
 
     def before(k, j):
         return OR(times[k] < times[j],
